@@ -151,7 +151,7 @@ def sprintf(I, fmt, args):
         val = ctx.force(val)
         if verb in 'sv' and flags == '' and (isinstance(val, str) or (is_sym(val) and z3.is_string(val))):
             res.append(val)
-        elif verb in 'dv' and dyn is not None and I.prog.kind(dyn) == 'int' and not isinstance(val, bool) and (isinstance(val, int) or z3.is_int(val)):
+        elif verb in 'dv' and dyn is not None and dyn in I.prog.types and I.prog.kind(dyn) == 'int' and not isinstance(val, bool) and (isinstance(val, int) or z3.is_int(val)):
             if flags == '':
                 res.append(int_to_str(val))
             elif flags.startswith('0') and flags[1:].isdigit():
